@@ -28,6 +28,7 @@ EXPLANATION = (
   " (TAB-has-px, fields) every has_px reads every length-typed field of its value type;"
   " (FIN-cellres) the cell-resolution attribute is written when, and only when, the document's value differs from the 32 x 15 default, evaluated on a grid of resolutions;"
   " (FIN-dropframe) the SMPTE writer's frame labels agree with ST 12-1 around every minute boundary for drop-frame rates and count plainly for non-drop rates;"
+  " (FMT-color) the #rrggbb[aa] text the writer prints, evaluated on a grid of components including alpha below 10h, is consumed whole by the reader's pattern and gives the same components;"
 )
 RULE_TEXT = "per element kind, per style property, per Enum member, per special-value access, per time syntax sample"
 UNDECIDED = ["snapshot equality after re-reading", "numeric precision of written lengths (:g formatting)", "font-family quoting round trip", "times move by less than one unit and never change order"]
@@ -261,6 +262,36 @@ def check_time_formats(ctx):
   w = ix.func("ttconv.imsc.writer:from_model")
   ctx.check("denominator != 1" in unparse(w.node) and "clock_time_with_frames" in unparse(w.node), "FMT-time", f"{w.qualname}|HH:MM:SS:FF only with integer frame rates",
             ctx.where(w.module, w.node), "rejected with ValueError otherwise", "the writer no longer refuses clock_time_with_frames for non-integer frame rates (drop-frame labels would be written, which the reader rejects)")
+
+
+def check_color_format(ctx):
+  """FMT-color: the hexadecimal colour the writer prints, evaluated for a grid of component values
+  (alpha below 10h and the opaque alpha included), is read back by the reader's hexadecimal pattern
+  as the same four components - the pattern must consume the whole string, otherwise a trailing
+  digit is silently dropped."""
+  from ..consteval import FuncEval, NotConst, Raised
+  ix = ctx.ix
+  f = ix.func(f"{SP}:StyleProperties.to_ttml_color")
+  ctx.unit(f.module)
+  um = ix.mod("ttconv.utils")
+  pat = fmt.pattern_literal(ix, um, "_HEX_COLOR_RE")
+  fe = FuncEval(ix)
+  p0 = f.params[0]
+  wrong, n = [], 0
+  for comps in ((255, 0, 0, 8), (1, 2, 3, 255), (0, 0, 0, 0), (16, 15, 254, 15), (171, 205, 239, 16), (9, 10, 11, 128)):
+    try:
+      text = fe.call(f, {f"{p0}.components": comps})
+    except (NotConst, Raised) as e:
+      raise AnalysisError(f"{f.qualname} leaves the evaluable subset ({e})")
+    n += 1
+    m = re.match(pat, text) if isinstance(text, str) else None
+    got = None
+    if m is not None and m.end() == len(text):
+      got = tuple(int(m.group(i), 16) for i in (1, 2, 3)) + ((int(m.group(4), 16),) if m.group(4) else (255,))
+    if got != comps:
+      wrong.append(f"{comps} is written as `{text}`, read back as {got if got is not None else 'a different / partial match'}")
+  ctx.check(not wrong, "FMT-color", f"{f.qualname}|#rrggbb[aa] is read back as the same components", ctx.where(f.module, f.node), f"{n} colours incl. alpha < 10h",
+            "; ".join(wrong[:3]) + ": the colour (typically its alpha) changes when the document is read back")
 
 
 def check_list_separators(ctx):
@@ -500,4 +531,5 @@ def run(ctx):
   fs = common.funcs(ctx, ["ttconv.time_code"]) + [ix.func("ttconv.imsc.attributes:to_time_format")]
   n = exa.check_exactness(ctx, fs, rule="EXA", exempt=common.EXA_EXEMPT, trunc_scope=common.time_trunc_scope(ctx))
   ctx.floor("EXA", "truncation sinks on the writer's time path", n, 10)
+  check_color_format(ctx)
   common.check_history_independence(ctx, ["ttconv.imsc.writer", "ttconv.imsc.reader", "ttconv.imsc.elements", "ttconv.imsc.attributes", "ttconv.imsc.utils", "ttconv.imsc.style_properties", "ttconv.imsc.config", "ttconv.time_code", "ttconv.utils"])
